@@ -1715,6 +1715,13 @@ class Sym:
             return [("pred", self.name(d), tr)]
         if d[0] == "var":
             defs = self.var_defs(d[1])
+            if defs and len(defs) == 1 and self.path_blocks is not None and strip(defs[0])[0] not in ("var", "loopval") and ("batom", d[1]) not in self._busy_vars:
+                # on a concrete path the boolean has one definition: its atoms (`let ok = a && all(..); if !ok {..}`)
+                self._busy_vars.add(("batom", d[1]))
+                try:
+                    return self.bool_atoms(defs[0], tr)
+                finally:
+                    self._busy_vars.discard(("batom", d[1]))
             if defs and len(defs) <= 4:
                 return [("pred", "phi(%s)" % "|".join(sorted(self.name(x) for x in defs)), tr)]
         return [("pred", self.name(d), tr)]
